@@ -29,6 +29,7 @@ func init() {
 		ruleR01c(c, "R01c")
 		ruleR01de(c)
 		ruleR01f(c)
+		ruleR01g(c)
 	})
 	register("C08", propMeta{
 		Level: "other",
